@@ -85,6 +85,34 @@ def gen_case(g, key, R, D, exact, mode):
     return d
 
 
+def pre_check(workdir, tier):
+    """translator tie (harness/moments_translate.py): the `_expectation_*` methods are re-translated from /repo's current
+    source into Coq definitions gen_* and coq/gen/GenMomentsEq.v (gen_* = the hand-written model E_*, for every dimension)
+    is re-checked against them; with the C03 theorems about E_* this makes the theorems hold for the source as it is now"""
+    import os, shutil, subprocess
+    from .. import moments_translate as mt
+    d = os.path.join(workdir, "gen")
+    os.makedirs(d, exist_ok=True)
+    eq = os.path.join(gtlib.COQ, "gen", "GenMomentsEq.v")
+    names = ["gen%s_eq" % m.replace("_expectation", "") for m in mt.METHODS]
+    try:
+        txt, done = mt.translate(gtlib.REPO)
+    except Exception as e:
+        return dict(ok=False, theorems=names, error="translator failed closed: %s: %s" % (type(e).__name__, e))
+    open(os.path.join(d, "GenMoments.v"), "w").write(txt)
+    shutil.copy(eq, d)
+    res = []
+    for f in ("GenMoments.v", "GenMomentsEq.v"):
+        r = subprocess.run(["coqc", "-R", gtlib.COQ, "GT", "-Q", ".", "", "-w", "none", f], cwd=d, capture_output=True, text=True, timeout=900)
+        res.append(r)
+        if r.returncode != 0:
+            break
+    ok = all(r.returncode == 0 for r in res) and len(res) == 2
+    out = res[-1].stdout
+    return dict(ok=ok, theorems=names, translated=done, closed=out.count("Closed under the global context"),
+                error=("".join(r.stderr for r in res))[-1200:])
+
+
 WARM = ["x", "xx'", "(Ax+a)'(Bx+b)", "xb'xx'"]
 
 
